@@ -180,6 +180,12 @@ constexpr auto clamp(QuantityPoint<UV, RV> v,
     return (v < lo) ? ResultT{lo} : (hi < v) ? ResultT{hi} : ResultT{v};
 }
 
+// Overload to resolve ambiguity with `std::clamp` for identical `QuantityPoint` types.
+template <typename U, typename R>
+constexpr auto clamp(QuantityPoint<U, R> v, QuantityPoint<U, R> lo, QuantityPoint<U, R> hi) {
+    return (v < lo) ? lo : (hi < v) ? hi : v;
+}
+
 template <typename U1, typename R1, typename U2, typename R2>
 auto hypot(Quantity<U1, R1> x, Quantity<U2, R2> y) {
     using U = CommonUnitT<U1, U2>;
